@@ -172,7 +172,7 @@ class OutputBuffer:
         '''Prints a message if verbose output is enabled.'''
         if self.verbose or self.debug:
             self.info(s)
-            if write_now:
+            if write_now and self.get_level('info') >= self.__level:  # A message dropped by the minimum output level must not be flushed as a blank line.
                 self.write()
 
         return self
@@ -181,7 +181,7 @@ class OutputBuffer:
         '''Prints a message if verbose output is enabled.'''
         if self.debug:
             self.info(s)
-            if write_now:
+            if write_now and self.get_level('info') >= self.__level:  # A message dropped by the minimum output level must not be flushed as a blank line.
                 self.write()
 
         return self
